@@ -513,6 +513,9 @@ class FiniteBifield:
         """
         # For our implementation, the element 'x' (represented by value 2 or 0b10)
         # is primitive when using the standard primitive polynomials
+        if self.m == 1:
+            # In GF(2) the class of x modulo x + 1 is 1, the only non-zero element
+            return self(1)
         return self(0b10)
 
     def get_all_elements(self) -> List["FiniteBifieldElement"]:
